@@ -36,6 +36,30 @@ BUILT = {
  "C12": ("deterministic simulation with late / reordered timer firing", "6.C12",
          "Timers fire late and in any order; a check or ping not attributable to a control request must come after all timers of its wait fired; arming arguments must equal the policy's answer.",
          "Timers never fire early (Timer contract)."),
+ "C10": ("deterministic simulation; per-path prescription of event reports with per-report delivery faults", "6.C10",
+         "Multi-app responses x policy decisions x installer result vectors x delivery outcome of each report; the event-bearing requests of every completed check are compared (count, order, apps, codes, versions) with the path's prescription, and lost-event accounting is checked per undeliverable report.",
+         "Empty-app-list reports may be sent or not; lost-event count for a multi-app single-event report is 1 or one per app."),
+ "C13": ("deterministic simulation of consumer polling schedules: generator programs in isolation and the state machine under lazy / spurious polling", "6.C13",
+         "Random generator programs under random consumer schedules through all four adaptors (items in order, exactly one completion, end, back-pressure, wake-up discipline, termination), plus in-situ back-pressure and progress-order rules on the state machine under lazy consumers.",
+         "into_complete hides item receipt; a halt is judged only while the stream is alive."),
+ "C14": ("deterministic simulation with hostile inputs and differential re-runs (storage failures on/off)", "6.C14",
+         "Garbage/bit-flipped/truncated bodies, hostile stored values, malformed URLs, wall-clock jumps, metrics errors and crashes with a formatting log subscriber installed; any panic while library code runs is a violation; the same seed is re-run with storage failures switched off and requests/events must be identical.",
+         "Policy/installer answers conform to their contracts; differential rule within one lifetime."),
+ "C15": ("deterministic simulation; in-situ wire-shape oracle (independent encoder) on every request sent", "6.C15",
+         "Every request the state machine sends in whole-flow runs is decoded at the simulated server and compared with an independently written encoder applied to the model state. Only request shapes the state machine actually issues are covered; builder call sequences it never issues are not claimed.",
+         "App state from policy arguments (C09 checks those); versions rebuilt from configured components."),
+ "C16": ("deterministic simulation; in-situ parser oracle on bytes arriving from the faulty network", "6.C16",
+         "Grammar-generated documents, byzantine documents and garbage/truncated/bit-flipped/deeply nested bodies reach the parser through the state machine (CUP off); the announced decode is compared with the document or with an independent reading of the bytes; required-field removals must be rejected; no panic.",
+         "serde_json::Value as the independent reading."),
+ "C17": ("deterministic simulation of client <-> real mock server in one process with reconfiguration races", "6.C17",
+         "The real client stack and the real mock_omaha_server::handle_request exchange requests through the transport seam; answers must parse with the client parser, list requested apps in order with the configured decision, verify with the client verifier for this exchange only, and lead the state machine to the configured outcome; admin reconfigurations race with exchanges.",
+         "Ping-only requests are outside the stated class and not sent; absolute-form to origin-form URI conversion in the seam."),
+ "C18": ("deterministic simulation of install histories with crash / reboot injection and restart on target or other version", "6.C18",
+         "A model of first-seen time, consecutive failed installs and the pending-reboot record is compared with metrics and restart behaviour over histories with crashes at drawn interactions (biased to recovery paths), reboots and version changes. One known finding (double report when the process dies between report and clear) is listed in KNOWN_FINDINGS.txt.",
+         "Wall-clock jumps only between lifetimes; 1 us tolerance; attempts cut by a crash may count or not."),
+ "C19": ("deterministic simulation of clock trajectories x storage round trip x restart (persistence path only)", "6.C19",
+         "Pre-epoch, sub-microsecond and beyond-i64-microsecond wall clocks plus hostile stored integers; every stored time must come back truncated toward the epoch at microsecond precision (exact comparisons) or be dropped exactly when it does not fit, and be re-persisted unchanged. The pure two-clock algebra and truncate_submicrosecond_walltime are not reachable through any seam and are NOT claimed.",
+         "Partial claim: persistence path only (DESIGN.md 6.C19)."),
 }
 
 NOT_APPLICABLE = {
